@@ -43,6 +43,16 @@ def cases(tier, seed):
             kw = {}
             if geom == 'irregular':
                 kw = {'holes': conv.pick_holes(rng, nI, nX), 'il': [rng.choice([1, 5, 100, -40, -100]), rng.choice([1, 2])], 'xl': [rng.choice([1, 20, -30]), rng.choice([1, 3])]}   # (no inline numbered 0: C08's known finding)
+                if i % 8 == 2:
+                    # a whole interior line was never acquired and the line increment is not 1
+                    ax = (i // 8) % 2
+                    mh = conv.missing_line_holes(rng, nI, nX, axis=ax)
+                    if mh:
+                        kw['holes'] = mh
+                        kw['il' if ax == 0 else 'xl'][1] = rng.choice([3, 10])
+                        if any(kw['il'][0] + kw['il'][1] * j == 0 for j in range(nI)):
+                            kw['il'][0] += 1          # (no inline numbered 0: C08's known finding)
+                        kw['missing_line'] = True
             else:
                 kw = {'il': [rng.choice([1, 10, -20]), rng.choice([1, 2, -1])], 'xl': [rng.choice([1, 100]), rng.choice([1, 3, -2])]}
             src = conv.src_desc(rng, geom, (nI, nX, rng.choice([4, 9, 20])), hdr=hdr, fmt=fmt, valkind=rng.choice(['smooth', 'noise', 'neg']), **kw)
@@ -149,6 +159,8 @@ def run_case(case, ctx):
         except Exception as e:  # noqa
             bad.append({'sig': 'export:not-readable-by-segyio-%s' % type(e).__name__, 'detail': '%s: %r' % (geom, e)})
     strata = ['geom:' + geom, 'fmt:%d' % src['fmt'], 'route:' + case['route'], 'detection:' + case['detection']]
+    if case['src'].get('missing_line'):
+        strata.append('irregular-missing-line')
     if known:
         strata.append('known:' + known)
         if bad:
@@ -158,7 +170,7 @@ def run_case(case, ctx):
 
 def finalize(tier, cases, results, counters, strata):
     reasons = []
-    for s in ['geom:3d', 'geom:irregular', 'geom:2d', 'fmt:1', 'fmt:5', 'route:api', 'route:cli']:
+    for s in ['geom:3d', 'geom:irregular', 'geom:2d', 'fmt:1', 'fmt:5', 'route:api', 'route:cli', 'irregular-missing-line']:
         if s not in strata:
             reasons.append('required stratum not hit: ' + s)
     if counters.get('traces_compared', 0) == 0:
